@@ -64,4 +64,34 @@ def runX (v : Variant) (g sub : Bool) (host : List (Str × Perm)) (xs : List XSt
   ⟨{ o with ents := o.ents.map (hostEnt host) },
    (implsFrom g (init sub).perm xs).map (fun k => ⟨k.name, takeHost implShortTakesIface host k.name k.perm⟩)⟩
 
+/-! ### the body in the module of its own interface (round 6)
+
+  Fortran allows the body of a separate module procedure "in the module or a descendant submodule".  In the module
+  that declares the interface, interface body and body are **one entity**; FORD keeps two objects for it:
+    * long form: the wrapper in `interfaces` (`Stmt.iface .plain`) and a procedure of the same name in
+      `subroutines` / `functions` (`Stmt.proc`).  Both lists are walked by the first loop of `process_attribs`, so an
+      access statement naming the entity reaches both exactly when an `attr_dict` entry outlives the first entity of
+      its name (`DelOrder.afterLoop`, the code as it is since the constructor repair; `perEntity`: only the
+      procedure, which comes first).  That is `runUnit`; nothing new is needed in the model.
+    * short form: the wrapper and a `FortranModuleProcedureImplementation` in `modprocedures` - a list
+      `process_attribs` never walks.  The body keeps the default it was constructed with.  `implAttr` is the
+      candidate repair (fixes/C04-own-module-short-body.diff): a loop over `modprocedures` at the start of
+      `process_attribs` that applies the access words of the whole `attr_dict` (nothing is deleted there).
+-/
+
+/-- `attr_dict` of the unit when `process_attribs` starts: every attribute statement of the unit, in order -/
+def attrsOf (g sub : Bool) (xs : List XStmt) : List (Str × Attr) :=
+  (((xstmts xs).map (keyed g)).foldl step (init sub)).attrs
+
+/-- the loop over `modprocedures` of the candidate repair -/
+def implUpd (on : Bool) (a : List (Str × Attr)) (k : Kid) : Kid :=
+  if on then ⟨k.name, applyAttrs applyWords k.name k.perm a⟩ else k
+
+/-- a module / submodule with the implementations of separate module procedures, after `correlate`; `implAttr`:
+    do access statements reach the short-form bodies (decided by the harness by probing the code under test) -/
+def runXI (v : Variant) (g sub implAttr : Bool) (host : List (Str × Perm)) (xs : List XStmt) : XOut :=
+  ⟨(runX v g sub host xs).out,
+   ((implsFrom g (init sub).perm xs).map (implUpd implAttr (attrsOf g sub xs))).map
+     (fun k => ⟨k.name, takeHost implShortTakesIface host k.name k.perm⟩)⟩
+
 end Ford.Access
